@@ -13,3 +13,22 @@ def product(**axes):
 
 def jid(prefix, cfg):
     return prefix + ":" + ",".join("%s=%s" % (k, cfg[k]) for k in sorted(cfg))
+
+
+def scaled_constants(**vals):
+    """Returns a generate(repo, work) function producing an overlay copy of src/constants.go in which only the
+    initialiser expressions of the named constants are replaced (DESIGN §2.4). Missing name -> error (inconclusive)."""
+    import re, os
+
+    def gen(repo, work):
+        path = os.path.join(repo, "src/constants.go")
+        src = open(path).read()
+        for name, val in vals.items():
+            pat = re.compile(r"(^\s*" + re.escape(name) + r"\s*(?:int\s*)?=\s*)([^\n/]+?)(\s*(//[^\n]*)?$)", re.M)
+            if len(pat.findall(src)) != 1:
+                raise RuntimeError("constant %s not found exactly once in src/constants.go" % name)
+            src = pat.sub(lambda m: m.group(1) + str(val) + m.group(3), src)
+        out = os.path.join(work, "constants_scaled.go")
+        open(out, "w").write(src)
+        return {path: out}
+    return gen
